@@ -34,9 +34,27 @@ def insertKey (e : Str × Str) : List (Str × Str) → List (Str × Str)
 def showFlat (m : Flat) : String :=
   ",".intercalate ((m.foldr insertKey []).map fun e => String.ofList e.1 ++ "=" ++ String.ofList e.2)
 
+def parseStep (s : String) : Option (Bool × Header) :=
+  let s := s.trimAscii.toString
+  match s.toList with
+  | k :: ':' :: rest =>
+    if k == 'a' || k == 'b' || k == 's' || k == 't' then (parseSpec (String.ofList rest)).map fun h => (k != 't', h)
+    else none
+  | _ => none
+
+def modelSeq (specs : List String) : String :=
+  match specs.mapM parseStep with
+  | some steps =>
+    if steps.isEmpty || steps.length > 39 then "bad-case" else
+    " ".intercalate ((seqPath steps).zipIdx.map fun (r, i) => s!"{i}.0[{showFlat r}]")
+  | none => "bad-case"
+
 def model (line : String) : String :=
   match line.splitOn "|" with
   | head :: specs =>
+    if (words head).head? == some "seq" then
+      (if (words head).length == 2 && ((words head).getD 1 "").toNat?.any (· ≥ 1) then modelSeq specs else "bad-case")
+    else
     match words head, specs.mapM parseSpec with
     | ["prop", mode, mb, reps], some hs =>
       match mb.toNat?, reps.toNat? with
@@ -77,7 +95,9 @@ def judge (line : String) : String :=
   if o == "bad-case" then "ok" else
   match c.splitOn "|" with
   | head :: specs =>
-    match (words head).getD 3 "" |>.toNat?, specs.mapM parseSpec with
+    let isSeq := (words head).head? == some "seq"
+    let specs := if isSeq then specs.map fun s => (s.trimAscii.toString.drop 2).toString else specs
+    match (if isSeq then some 1 else (words head).getD 3 "" |>.toNat?), specs.mapM parseSpec with
     | some reps, some hs =>
       match (words o).mapM parseTok with
       | none => "bad unparsable output: " ++ o
